@@ -2,6 +2,7 @@ from openpyxl.utils import column_index_from_string
 
 from excel2pycl.src.context import Context
 from excel2pycl.src.excel import Excel
+from excel2pycl.src.exceptions import E2PyclCellException
 from excel2pycl.src.tokens import ColumnControlConstructionToken
 from excel2pycl.src.translators.abstract_translator import AbstractTranslator
 
@@ -13,7 +14,10 @@ class ColumnControlConstructionTokenTranslator(AbstractTranslator):
             MatrixOfCellIdentifiersTokenTranslator
 
         if token.cell:
-            return str(column_index_from_string(token.cell.cell.column))
+            try:
+                return str(column_index_from_string(token.cell.cell.column))
+            except ValueError:
+                raise E2PyclCellException(f'There is no column `{token.cell.cell.column}`')
         elif token.matrix:
             # Mutates matrix, inplace literal cols with digital
             MatrixOfCellIdentifiersTokenTranslator.translate(token.matrix, excel, context)
